@@ -315,3 +315,115 @@ fn c16_usability_probe_agrees_with_client_open() {
     kani::cover!(client_can_open, "C16.cover.probe_usable");
     kani::cover!(!missing && !is_dir && magic_ok && ver != 0 && gen != 0 && size >= 16 && size < 72, "C16.cover.probe_header_only");
 }
+
+// =================================================================================================
+// C16 / C04 end to end on a file model (posix_fs_model.c): the REAL ShmWriter::new -- including
+// is_usable_segment, wipe (std::fs::File + byteorder) and mmap_segment_at (nix) -- on any
+// pre-existing file, then the REAL write, then a REAL fresh ShmReader::new + snapshot.
+// Only `fs::create_dir_all` is stubbed (directory creation is outside the one-file model).
+// =================================================================================================
+pub(crate) mod fsmodel {
+    extern "C" {
+        pub(crate) static mut fs_file: [u8; 4096];
+        pub(crate) static mut fs_file_len: u64;
+        pub(crate) static mut fs_exists: i32;
+        pub(crate) static mut fs_open_fds: i32;
+        pub(crate) static mut fs_live_mappings: i32;
+        pub(crate) static mut fs_bad_arg: i32;
+        pub(crate) static mut fs_creates: i32;
+        pub(crate) static mut fs_fsyncs: i32;
+    }
+}
+
+fn stub_create_dir_all<P: AsRef<Path>>(_p: P) -> std::io::Result<()> {
+    Ok(())
+}
+
+fn ne_u32(b: &[u8; 4096], at: usize) -> u32 {
+    u32::from_ne_bytes([b[at], b[at + 1], b[at + 2], b[at + 3]])
+}
+fn ne_u16(b: &[u8; 4096], at: usize) -> u16 {
+    u16::from_ne_bytes([b[at], b[at + 1]])
+}
+
+#[kani::proof]
+#[kani::unwind(130)]
+#[kani::stub(std::fs::create_dir_all, stub_create_dir_all)]
+fn c16_new_on_any_file_end_to_end() {
+    use fsmodel::*;
+    // any pre-existing file: absent, or 0..=96 bytes of arbitrary header + record bytes
+    let exists: bool = kani::any();
+    let len: usize = kani::any();
+    kani::assume(len <= 96);
+    let head: [u8; 72] = kani::any();
+    unsafe {
+        fs_exists = exists as i32;
+        fs_file_len = if exists { len as u64 } else { 0 };
+        let mut i = 0;
+        while i < 72 {
+            fs_file[i] = if exists && i < len { head[i] } else { 0 };
+            i += 1;
+        }
+    }
+    let before: [u8; 4096] = unsafe { fs_file };
+    let has_header = exists && len >= 16;
+    let usable = has_header && ne_u32(&before, 0) == 0x414D5A4E && ne_u32(&before, 4) == 0x43420200
+        && ne_u16(&before, 12) != 0 && ne_u16(&before, 14) != 0 && ne_u32(&before, 8) >= 72;
+
+    let w = ShmWriter::new(Path::new("/p"));
+    kani::assert(w.is_ok(), "C16.e2e.new_succeeds_on_any_file");
+    let mut w = w.unwrap();
+    let after: [u8; 4096] = unsafe { fs_file };
+    unsafe {
+        kani::assert(fs_bad_arg == 0, "C16.e2e.descriptors_and_mappings_used_consistently");
+        kani::assert(fs_open_fds <= 1, "C16.e2e.no_descriptor_leak_beyond_the_writer_mapping_fd");
+    }
+    if usable {
+        // (c) a valid segment is taken over in place: never emptied or re-created
+        kani::assert(unsafe { fs_creates } == 0, "C04.e2e.valid_segment_not_recreated");
+        let mut same = true;
+        let mut i = 0;
+        while i < 72 {
+            if i != 12 && i != 13 && after[i] != before[i] {
+                same = false;
+            }
+            i += 1;
+        }
+        kani::assert(same, "C04.e2e.takeover_keeps_every_byte_but_the_version");
+        kani::assert(ne_u16(&after, 12) == 1, "C04.e2e.takeover_publishes_version_1");
+    } else {
+        // repaired: laid out as documented, 72 bytes, not yet readable
+        kani::assert(unsafe { fs_file_len } == 72, "C16.e2e.recreated_file_is_72_bytes");
+        kani::assert(ne_u32(&after, 0) == 0x414D5A4E && ne_u32(&after, 4) == 0x43420200, "C16.e2e.recreated_magic");
+        kani::assert(ne_u32(&after, 8) == 72, "C16.e2e.recreated_declared_size_72");
+        kani::assert(ne_u16(&after, 12) == 1 && ne_u16(&after, 14) == 0, "C16.e2e.recreated_version_1_generation_0");
+        let mut zero = true;
+        let mut i = 16;
+        while i < 72 {
+            if after[i] != 0 {
+                zero = false;
+            }
+            i += 1;
+        }
+        kani::assert(zero, "C16.e2e.recreated_record_is_zero");
+        kani::assert(unsafe { fs_fsyncs } >= 1, "C16.e2e.recreated_file_is_synced");
+    }
+    // first publication, then a brand-new client
+    let rec = any_ceb();
+    w.write(&rec);
+    let path = std::ffi::CStr::from_bytes_with_nul(b"/p\0").unwrap();
+    let r = ShmReader::new(path);
+    kani::assert(r.is_ok(), "C16.e2e.client_can_open_after_first_publication");
+    let mut r = r.unwrap();
+    let got = match r.snapshot() {
+        Ok(c) => Some(*c),
+        Err(_) => None,
+    };
+    kani::assert(got.is_some(), "C16.e2e.client_snapshot_succeeds");
+    kani::assert(ceb_eq(&got.unwrap(), &rec), "C16.e2e.client_reads_back_exactly_the_published_record");
+    std::mem::forget(r);
+    std::mem::forget(w);
+    kani::cover!(usable, "C16.cover.e2e_takeover");
+    kani::cover!(!exists, "C16.cover.e2e_missing_file");
+    kani::cover!(exists && !usable && len >= 16, "C16.cover.e2e_repair");
+}
